@@ -26,8 +26,9 @@ import (
 )
 
 type c15Op struct {
-	Op     string `json:"op"` // start | reset | init
-	Cycles int    `json:"cycles,omitempty"`
+	Op     string      `json:"op"` // start | reset | init | editMap
+	Cycles int         `json:"cycles,omitempty"`
+	Map    map[int]int `json:"map,omitempty"` // editMap: the pwmMap the user puts into the configuration (nil: removes it)
 }
 
 type c15Scenario struct {
@@ -66,11 +67,25 @@ func genC15(t *rapid.T) c15Scenario {
 	n := rapid.IntRange(2, 8).Draw(t, "nOps")
 	sc.Ops = append(sc.Ops, c15Op{Op: "start", Cycles: rapid.IntRange(1, 5).Draw(t, "k")})
 	for len(sc.Ops) < n {
-		switch rapid.IntRange(0, 5).Draw(t, "op") {
+		switch rapid.IntRange(0, 6).Draw(t, "op") {
 		case 0:
 			sc.Ops = append(sc.Ops, c15Op{Op: "reset"})
 		case 1:
 			sc.Ops = append(sc.Ops, c15Op{Op: "init"})
+		case 2:
+			// the user edits the configuration between two runs: adds, changes or removes the pwmMap
+			var m map[int]int
+			if rapid.IntRange(0, 3).Draw(t, "removeMap") > 0 {
+				n := rapid.IntRange(2, 6).Draw(t, "editN")
+				keys := rapid.SliceOfNDistinct(rapid.IntRange(0, 255), n, n, rapid.ID[int]).Draw(t, "editKeys")
+				m = map[int]int{}
+				for _, k := range keys {
+					m[k] = k
+				}
+			}
+			if f.Quant <= 1 {
+				sc.Ops = append(sc.Ops, c15Op{Op: "editMap", Map: m})
+			}
 		default:
 			sc.Ops = append(sc.Ops, c15Op{Op: "start", Cycles: rapid.IntRange(1, 5).Draw(t, "k")})
 		}
@@ -108,6 +123,7 @@ func classifyWrites(ws []sim.WriteRec) (sweep, measurement bool, distinct int) {
 type c15Start struct {
 	Op          int   `json:"op"`
 	Stored      bool  `json:"stored"`
+	StoredMap   bool  `json:"storedMap"`
 	PreWrites   int   `json:"preWrites"`
 	Distinct    int   `json:"distinct"`
 	Sweep       bool  `json:"sweep"`
@@ -125,7 +141,7 @@ func runC15(t *testing.T, sc c15Scenario) verdict {
 			vs = append(vs, sim.Violation{Key: k, Msg: m})
 		}
 	}
-	stored := false
+	stored, storedMap, edited := false, false, false // stored: RPM curve data in the database; storedMap: a PWM map in the database
 	law := sim.RpmLaw{Theta: 0, Rpm: 1200}
 	spec := sc.Fan
 	var starts []c15Start
@@ -134,6 +150,9 @@ func runC15(t *testing.T, sc c15Scenario) verdict {
 	for i, op := range sc.Ops {
 		pers := persistence.NewPersistence(dbPath) // a new process opens the database afresh
 		switch op.Op {
+		case "editMap":
+			spec.PwmMap = op.Map
+			edited = true
 		case "reset":
 			// exactly what cmd/fan/reset.go does
 			fan, _ := fans.NewFan(configuration.FanConfig{ID: "f0", HwMon: &configuration.HwMonFanConfig{}})
@@ -143,14 +162,14 @@ func runC15(t *testing.T, sc c15Scenario) verdict {
 			if err := pers.DeleteFanPwmMap("f0"); err != nil {
 				add("reset-failed", err.Error())
 			}
-			stored = false
+			stored, storedMap = false, false
 		case "init":
 			_, final, err := sim.RunInit(t, spec, law, pers)
 			if err != nil {
 				add("init-failed", err.Error())
 			}
 			spec.OrigPwm = final
-			stored = true
+			stored, storedMap = true, true // the initialization sequence stores the map it used and (with an RPM input) the curve
 		default:
 			steps := make([]sim.Step, op.Cycles)
 			for j := range steps {
@@ -164,17 +183,19 @@ func runC15(t *testing.T, sc c15Scenario) verdict {
 				return verdict{vs: vs}
 			}
 			sweep, meas, distinct := classifyWrites(res.PreWrites)
-			starts = append(starts, c15Start{Op: i, Stored: stored, PreWrites: len(res.PreWrites), Distinct: distinct, Sweep: sweep, Measurement: meas, FirstEvalMs: res.FirstEval.Milliseconds()})
+			starts = append(starts, c15Start{Op: i, Stored: stored, StoredMap: storedMap, PreWrites: len(res.PreWrites), Distinct: distinct, Sweep: sweep, Measurement: meas, FirstEvalMs: res.FirstEval.Milliseconds()})
 			if stored {
 				nt = true
-				if sweep {
+				// a sweep is only excused when no PWM map is stored (earlier runs used a configured map,
+				// which is not stored) and none is configured now
+				if sweep && (storedMap || spec.PwmMap != nil) {
 					add("stored-pwm-map-ignored", fmt.Sprintf("op %d: start with stored data swept the fan again (%d writes, %d distinct values before regulation)", i, len(res.PreWrites), distinct))
 				}
 				if meas {
 					add("stored-rpm-curve-ignored", fmt.Sprintf("op %d: start with stored data measured the RPM curve again (%d writes before regulation)", i, len(res.PreWrites)))
 				}
 				bound := 2*time.Second + 2*200*time.Millisecond + time.Second + time.Duration(sc.TickMs)*time.Millisecond + 500*time.Millisecond
-				if res.FirstEval > bound && !sweep && !meas {
+				if res.FirstEval > bound && !sweep && !meas && (storedMap || spec.PwmMap != nil) {
 					add("slow-start-with-stored-data", fmt.Sprintf("op %d: regulation began after %v, start-up delay is %v", i, res.FirstEval, bound))
 				}
 			}
@@ -203,6 +224,9 @@ func runC15(t *testing.T, sc c15Scenario) verdict {
 			}
 			spec.OrigPwm = res.FinalPwm
 			spec.OrigMode = 2
+			if (spec.Kind == "hwmon" && !stored) || spec.PwmMap == nil {
+				storedMap = true // initialization sequence of an unknown hwmon fan, or an automatically computed map
+			}
 			stored = true
 		}
 	}
@@ -218,6 +242,9 @@ func runC15(t *testing.T, sc c15Scenario) verdict {
 			labels = append(labels, "start-with-stored-data")
 			break
 		}
+	}
+	if edited {
+		labels = append(labels, "pwmMap-edited-between-runs")
 	}
 	return verdict{vs: vs, nontrivial: nt, labels: labels, outcome: starts}
 }
